@@ -15,6 +15,7 @@
 package c12
 
 import (
+	"encoding/base64"
 	"encoding/hex"
 	"encoding/json"
 	"fmt"
@@ -75,6 +76,22 @@ func fixedMIDs() []midCase {
 	add("mixed", "x/../../y", "a/../../../x", "./../x", "..//x", "../in/../../x", "in/../../../y", "a/b/../../../../decoy", "..//..//x", ".././../x", "x/../../../../../../../../y")
 	// shapes that survive naive sanitising (removing "../" once, checking only a prefix, Clean()-ing)
 	add("bypass", "....//....//x", "....//x", "..././..././x", ".../...//x", "....\\/....\\/x", "x/../../../decoy", "./../../x", "%2e%2e/%2e%2e/x", "..%2f..%2fx", "..;/..;/x", "a/b/c/../../../../../x", "in/../../../x")
+	// identifiers that turn into a traversal only after some decoding step a mailbox might apply to a
+	// name (RFC 2047 encoded words as in header fields, percent-escapes, HTML entities, overlong and
+	// full-width forms, case folding of escapes) - the raw strings contain no separator at all
+	for _, target := range []string{"../../x", "../../decoy", "../../../../../../x", "/abs/x", "../../mbox2/in/x", "../in/../../x"} {
+		q, pc := "", ""
+		for i := 0; i < len(target); i++ {
+			q += fmt.Sprintf("=%02X", target[i])
+			pc += fmt.Sprintf("%%%02x", target[i])
+		}
+		b64 := base64.StdEncoding.EncodeToString([]byte(target))
+		add("encoded", "=?utf-8?q?"+q+"?=", "=?UTF-8?Q?"+q+"?=", "=?iso-8859-1?q?"+q+"?=", "=?utf-8?b?"+b64+"?=", "=?ISO-8859-1?B?"+b64+"?=", "=?us-ascii?q?"+strings.ReplaceAll(target, "/", "=2F")+"?=",
+			"x =?utf-8?q?"+q+"?=", pc, strings.ReplaceAll(target, "/", "%2F"), strings.ReplaceAll(target, "/", "%252f"), strings.ReplaceAll(target, "/", "&#47;"), strings.ReplaceAll(target, "/", "\u2215"),
+			strings.ReplaceAll(strings.ReplaceAll(target, "/", "\xc0\xaf"), ".", "\xc0\xae"), strings.ReplaceAll(strings.ReplaceAll(target, "/", "\uff0f"), ".", "\uff0e"), b64, q)
+	}
+	// targets below directories that do not exist (yet): a helper that "creates the missing folder" first
+	add("newdir", "../../N0NEW/in/x", "../../../spool/cron/x", "../newdir/x", "/abs/newdir/x", "../../Q/x", "../Q/x", "../../../../../../new/dir/deep/x", "newdir/x", "in/newdir/x", "../../mbox2/newdir/x")
 	add("crlf", "x\r\nX-Evil: 1", "../../x\n", "../../x\r", "x\ny", "\r\n")
 	add("valid", "VALID0000002", "x", "AAAAAAAAAAA1", "abc123", "Z")
 	return l
